@@ -323,6 +323,21 @@ def _has(src, pat):
     return re.search(pat, src, flags=re.S) is not None
 
 
+def _sig_cr_only_multiline_string(c):
+    # the source uses bare carriage returns as line terminators and contains a string literal spanning lines; the
+    # rewritten statement carries the literal with its line break replaced by blanks
+    src = c["source"]
+    if not re.search(r"\r(?!\n)", src):
+        return False
+    try:
+        tree = ast.parse(src)
+    except SyntaxError:
+        return False
+    multi = [n for n in ast.walk(tree) if isinstance(n, ast.Constant) and isinstance(n.value, str)
+             and n.end_lineno > n.lineno]
+    return bool(multi) and any(n.value not in c["output"] and n.value.replace("\n", "") != n.value for n in multi)
+
+
 def _sig_needs_import_completion(c):
     # the rule introduced a qualified stdlib name (collections.defaultdict, heapq.nlargest, ...) and relies on the
     # add_missing_imports stage: in isolation the output raises NameError, after that stage it behaves as before
@@ -336,7 +351,7 @@ def _sig_zip_truncation(c):
             and len(r["after_stdout"]) > len(r["before_stdout"]))
 
 
-SIGS: dict = {"zip_truncation": _sig_zip_truncation, "needs_import_completion": _sig_needs_import_completion}
+SIGS: dict = {"cr_only_multiline_string": _sig_cr_only_multiline_string, "zip_truncation": _sig_zip_truncation, "needs_import_completion": _sig_needs_import_completion}
 
 
 def _sig(name):
@@ -1336,8 +1351,29 @@ def _sig_sum_closed_form_of_empty_range(c):
     # symbolic_math (F17-1): the closed form of sum(range(a, b)) is wrong for an empty range (b < a)
     src, out = _st(c)
     r = c["result"]
-    return (bool(_sum_range(src)) and len(_sum_range(out)) < len(_sum_range(src)) and not _calls(out, "range")
-            and _floats_as_ints(r.get("after_stdout", "")) != r.get("before_stdout"))
+    if not (bool(_sum_range(src)) and len(_sum_range(out)) < len(_sum_range(src)) and not _calls(out, "range")
+            and _floats_as_ints(r.get("after_stdout", "")) != r.get("before_stdout")):
+        return False
+    # ... and one of the summed ranges really is EMPTY with an implicit step of 1 (integer literals or module-level
+    # integer constants as bounds); a wrong closed form for a non-empty or stepped range is a different defect
+    consts = {}
+    for node in src.body:
+        if isinstance(node, ast.Assign) and len(node.targets) == 1 and isinstance(node.targets[0], ast.Name):
+            try:
+                v = ast.literal_eval(node.value)
+            except (ValueError, SyntaxError):
+                continue
+            if type(v) is int:
+                consts[node.targets[0].id] = v
+    for call in _sum_range(src):
+        for rng in [x for x in ast.walk(call) if _call_name(x) == "range" and len(x.args) in (1, 2)]:
+            try:
+                args = [eval(compile(ast.Expression(a), "<r>", "eval"), {"__builtins__": {}}, dict(consts)) for a in rng.args]
+            except Exception:  # noqa
+                continue
+            if all(type(a) is int for a in args) and len(range(*args)) == 0:
+                return True
+    return False
 
 
 @_sig("sum_of_stepped_range")
